@@ -1,5 +1,7 @@
 """C01 — strict acceptance <=> RFC 8259 (see DESIGN.md section 3, C01)."""
 from .. import entry, parsercheck
+import re
+
 from ..absint import Agg, Conc, Obj, Ref, Sym, Top, Undecided
 
 LEVEL = "model_checking"
@@ -26,46 +28,115 @@ def entry_rule(ctx, res, rule="C01.entry", tail_only=False):
         cuts = [o for o in outs if o.outcome[0] == "cut"]
         others = [o for o in outs if o.outcome[0] != "cut"]
         key = rule + "/%s" % root[5:]
-        if len(cuts) != 1 or others:
-            res.violation(rule, key + "/shape", "%s does not reach the core parser exactly once on a single path (%d core calls, other outcomes %s)" % (
+        if not cuts or others:
+            res.violation(rule, key + "/shape", "%s has a path that does not go through the core parser (%d core calls, other outcomes %s): the entry point has a verdict of its own" % (
                 root, len(cuts), [o.outcome[0] for o in others]))
             continue
-        o = cuts[0]
-        args = o.outcome[2]
-        pref = args[0]
-        try:
-            parser = it.read_path(o, pref.base, pref.proj)
-        except Exception as e:  # noqa
-            res.violation(rule, key + "/parser", "cannot read the parser record passed to the core: %s" % e)
-            continue
-        t = P.types[parser.ty]
-        names = [f["name"] for f in t["variants"][0]["fields"]]
-        fld = dict(zip(names, parser.fields))
-        # options
-        o_val = fld.get("options")
-        if has_opts:
-            ok = isinstance(o_val, Agg) and tuple(o_val.fields) == tuple(opt_syms)
-            res.ob(ok, rule, key + "/options", "%s does not pass its `options` argument unchanged to the parser (got %r)" % (root, o_val),
-                   sample={"entry": root, "options": "caller's argument, unchanged"})
-        else:
-            ok = isinstance(o_val, Agg) and tuple(o_val.fields) == (Conc(0), Conc(0))
-            res.ob(ok, rule, key + "/options", "%s must parse with strict default options (both flags false), parser record has %r" % (root, o_val),
-                   sample={"entry": root, "options": "strict (false,false) from Options::default()"})
-        res.ob(isinstance(fld.get("pending"), Agg) and fld["pending"].variant == 0, rule, key + "/pending",
-               "%s: the lookahead slot of a fresh parser must be empty" % root)
-        res.ob(fld.get("position") == Conc(0), rule, key + "/position", "%s: a fresh parser must start at byte offset 0 (got %r)" % (root, fld.get("position")))
-        # context argument: Context::None
-        cx = args[1]
-        res.ob(isinstance(cx, Agg) and cx.variant == 0, rule, key + "/context", "%s: the root value must be parsed in Context::None (got %r)" % (root, cx))
+        forms = []
+        for pi, o in enumerate(cuts):
+            pkey = key if len(cuts) == 1 else key + "/path%d" % pi
+            args = o.outcome[2]
+            pref = args[0]
+            try:
+                parser = it.read_path(o, pref.base, pref.proj)
+            except Exception as e:  # noqa
+                res.violation(rule, pkey + "/parser", "cannot read the parser record passed to the core: %s" % e)
+                continue
+            t = P.types[parser.ty]
+            names = [f["name"] for f in t["variants"][0]["fields"]]
+            fld = dict(zip(names, parser.fields))
+            if not tail_only:
+                # options
+                o_val = fld.get("options")
+                if has_opts:
+                    ok = isinstance(o_val, Agg) and tuple(o_val.fields) == tuple(opt_syms)
+                    res.ob(ok, rule, pkey + "/options", "%s does not pass its `options` argument unchanged to the parser (got %r)" % (root, o_val),
+                           sample={"entry": root, "options": "caller's argument, unchanged"})
+                else:
+                    ok = isinstance(o_val, Agg) and tuple(o_val.fields) == (Conc(0), Conc(0))
+                    res.ob(ok, rule, pkey + "/options", "%s must parse with strict default options (both flags false), parser record has %r" % (root, o_val),
+                           sample={"entry": root, "options": "strict (false,false) from Options::default()"})
+                res.ob(isinstance(fld.get("pending"), Agg) and fld["pending"].variant == 0, rule, pkey + "/pending",
+                       "%s: the lookahead slot of a fresh parser must be empty" % root)
+                res.ob(fld.get("position") == Conc(0), rule, pkey + "/position", "%s: a fresh parser must start at byte offset 0 (got %r)" % (root, fld.get("position")))
+                # context argument: Context::None
+                cx = args[1]
+                res.ob(isinstance(cx, Agg) and cx.variant == 0, rule, pkey + "/context", "%s: the root value must be parsed in Context::None (got %r)" % (root, cx))
+                # the character source: the whole input, nothing else
+                src, fns = entry.peel_adaptors(P, fld.get("chars"))
+                form, why, _ = entry.describe_source(P, src, fns, kind, Top(P.inst[P.roots[root]]["locals"][input_local(P, root)], "input"))
+                forms.append(form)
+                res.ob(why is None, rule, pkey + "/source", "%s: %s" % (root, why), sample={"entry": root, "character_source": form})
+                res.count("character_sources_analysed")
+            tail_rule(ctx, res, it, o, root, kind, pkey, pref, rule)
+        if not tail_only:
+            ok = sorted(forms) in (["str-chars"], ["caller-iterator"], ["utf8-decode"], ["std-invalid", "std-valid"])
+            res.ob(ok, rule, key + "/source-paths", "%s: the paths reaching the core are %s; expected one source, or the valid / ill-formed pair of a from_utf8 based decoder" % (root, sorted(forms)))
         n += 1
         res.count("entry_points_analysed")
-        tail_rule(ctx, res, it, o, root, kind, key, pref, rule)
         if not tail_only:
             adaptor_rule(ctx, res, root, key)
+            if kind == "bytes":
+                utf8_rule(ctx, res, root, key, forms)
     res.floor(rule, "entry_points_analysed", 13)
     if not tail_only:
         res.floor(rule, "adaptors_analysed", 13)
+        res.floor(rule, "character_sources_analysed", 13)
+        res.floor("C01.utf8", "byte_decoders_analysed", 2)
     res.floor(rule, "core_result_shapes_analysed", 84)
+
+
+def input_local(P, root):
+    """Index of the input parameter of a harness root (the first parameter that is not the options record)."""
+    rinst = P.inst[P.roots[root]]
+    for li in range(1, rinst["arg_count"] + 1):
+        if P.types[rinst["locals"][li]].get("name") != "json_syntax::parse::Options":
+            return li
+    raise Undecided("no input parameter in %s" % root)
+
+
+_UTF8_CACHE = {}
+
+
+def utf8_rule(ctx, res, root, key, forms):
+    """C01.utf8: byte input is decoded exactly as well-formed UTF-8.
+    - a core::str::from_utf8 based source is well-formed by the contract of std (C01.entry/source checked the data flow);
+    - utf8_decode::Decoder is modelled at byte level (jsv/utf8model.py) and compared with Unicode Table 3-7."""
+    from .. import utf8model
+    P = ctx.P
+    res.count("byte_decoders_analysed")
+    if sorted(forms) == ["std-invalid", "std-valid"]:
+        res.ob(True, "C01.utf8", key + "/utf8", "", sample={"entry": root, "decoder": "core::str::from_utf8 (trusted std contract): characters of the longest well-formed prefix, then one error item iff the input is ill-formed"})
+        res.trusted.append("core::str::from_utf8 / Utf8Error::valid_up_to / str::chars implement Unicode well-formedness (std contract)")
+        return
+    if forms != ["utf8-decode"]:
+        res.violation("C01.utf8", key + "/utf8/undecided", "%s: no model for the byte decoder (%s)" % (root, forms))
+        return
+    cands = [i for i in P.inst if re.match(r"^<utf8_decode::safe::Decoder<std::iter::Copied<std::slice::Iter<'_, u8>>> as std::iter::Iterator>::next$", i["name"])]
+    if len(cands) != 1:
+        res.violation("C01.utf8", key + "/utf8/undecided", "%s: decoder instance not found (%d)" % (root, len(cands)))
+        return
+    iid = cands[0]["id"]
+    if iid not in _UTF8_CACHE:
+        try:
+            it, leaves, steps = utf8model.explore(P, iid)
+            _UTF8_CACHE[iid] = utf8model.decide(it, leaves)
+        except Undecided as e:
+            _UTF8_CACHE[iid] = e
+    r = _UTF8_CACHE[iid]
+    if isinstance(r, Undecided):
+        res.violation("C01.utf8", key + "/utf8/undecided", "%s: byte-level model of the decoder undecided: %s" % (root, r))
+        return
+    viol, stats = r
+    for k, v in stats.items():
+        if isinstance(v, int):
+            res.analysed["utf8." + k] = v
+    if not getattr(res, "_utf8_reported", False):
+        res._utf8_reported = True
+        for k, msg in viol:
+            res.violation("C01.utf8", k, "%s [decoder behind parse_slice / parse_slice_with]" % msg, site=P.loc(iid))
+    res.ob(True, "C01.utf8", key + "/utf8-model", "", sample={"entry": root, "decoder": "utf8_decode::Decoder", "byte_tuples_evaluated": stats["byte_tuples_evaluated"], "accepted": stats["accepted_sequences"]})
+
 
 
 def tail_rule(ctx, res, it, o, root, kind, key, pref, rule="C01.entry"):
